@@ -425,6 +425,11 @@ func (s Server) Serve(c context.Context, conn network.Conn) (err error) {
 
 		// Release request body stream
 		if reqBodyStream != nil {
+			if ctx.Request.IsBodyStream() && ctx.Request.BodyStream() == reqBodyStream {
+				// the stream object goes back to a pool shared by all connections: the
+				// request (which tracers still look at in Finish) must not keep pointing at it
+				ctx.Request.CloseBodyStream() //nolint:errcheck
+			}
 			err = ext.ReleaseBodyStream(reqBodyStream)
 			if err != nil {
 				return
